@@ -143,6 +143,10 @@ Theorem contains_refines : forall s pa l x,
 Proof. exact Arrays.contains_refines. Qed.
 Print Assumptions contains_refines.
 
+Example contains_refines_ex :
+  obs_plain (fst (native_call NContains [VStr (bs "x")] (Some ex_pa) (st_of ex_h)))
+  = ideal_contains (VStr (bs "x")) ex_l.
+Proof. vm_compute. reflexivity. Qed.
 Example contains_ex :
   fst (native_call NContains [VStr (bs "x")] (Some ex_pa) (st_of ex_h)) = Ok (NVal (VBool true)) /\
   fst (native_call NContains [VStr (bs "1")] (Some ex_pa) (st_of ex_h)) = Ok (NVal (VBool true)) /\
@@ -176,6 +180,18 @@ Theorem sort_panics_only_on_functions : forall s pa l args,
 Proof. exact Arrays.sort_panics. Qed.
 Print Assumptions sort_panics_only_on_functions.
 
+Example sort_order_choice_ex :
+  forallb is_num ex_l = false /\ forallb is_num [VNum f_one; VNum f_zero] = true /\
+  ideal_sort [VNum (f_of_Z 10); VNum (f_of_Z 9)] = [VNum (f_of_Z 9); VNum (f_of_Z 10)] /\
+  ideal_sort [VNum (f_of_Z 10); VNum (f_of_Z 9); VStr (bs "x")] = [VNum (f_of_Z 10); VNum (f_of_Z 9); VStr (bs "x")].
+Proof. vm_compute. repeat split; reflexivity. Qed.
+Example sort_panics_ex :
+  let '(c, h1) := alloc empty_heap (VFn 0) in
+  let '(arr, h2) := new_array_of h1 [c] in
+  let '(pa, h3) := alloc h2 arr in
+  abs h3 pa = Some [VFn 0] /\ forallb copyable [VFn 0] = false /\
+  fst (native_call NSort [] (Some pa) (st_of h3)) = Panic.
+Proof. vm_compute. repeat split; reflexivity. Qed.
 Example sort_ex :
   forallb copyable ex_l = true /\
   (let '(r, s') := native_call NSort [] (Some ex_pa) (st_of ex_h) in
